@@ -57,8 +57,10 @@ ms = KaniUnit("c17_ms", CORE, modules=[dict(file=MS, src="c12_multiset.rs")],
               harnesses=_keep)
 ms.native_witnesses = ["c17_wit_multiset_shape_sweep", "c12_wit_multiset_zero_axes_terminates", "c12_wit_multiset_empty_axis_is_empty_product"]
 msv = VerusUnit("c17_multiset", "c17_multiset", rlimit=60, paired_kani=(ms, []))
-UNITS = [msv, ms]
+gw = KaniUnit("c17_app_wit", "routee-compass", modules=[dict(file="routee-compass/src/app/compass/compass_app.rs", src="app_wit.rs")], harnesses=[])
+gw.native_witnesses = ["c17_wit_grid_object_choices_do_not_leak", "c17_wit_flatten_partial_expansion"]
+UNITS = [msv, ms, gw]
 EXPLANATION = ("MultiSet::from / next extracted and verified by Verus for ANY number of axes and ANY lengths: next() returns the tuple at the current position and moves to the mixed-radix successor (first axis fastest), "
                "None after the last tuple; lemma: each step advances the denoted number by one, the last tuple denotes prod(len)-1 -- hence exactly the Cartesian product, each tuple once, in order. "
                "The iterator-adapter fragments are assumed helper contracts (listed); a native sweep over all shapes <= 3x3x3 runs in the thorough tier (per-shape Kani harnesses exceeded the time/memory caps and are not registered)")
-NOT_DECIDED = "GridSearchPlugin::process (serde_json): mapping from index tuples to queries, object-valued options; json_array_flatten; shapes beyond the bound; empty axes / zero axes (see C12)"
+NOT_DECIDED = "GridSearchPlugin::process (serde_json): mapping from index tuples to queries, object-valued options; json_array_flatten -- both only exercised by two native witnesses (thorough tier, concrete inputs, not proof)"
